@@ -8,31 +8,7 @@ from .. import drv_change as D
 from ..core import pmap
 
 ALPHA = (0.0, 1.0, 4.5, -3.0)
-WRAPS = {"scalar": lambda x: x, "list": lambda x: [x], "array": lambda x: np.array([x]),
-         "array2d": lambda x: np.array([[x]]), "frame": lambda x: pd.DataFrame({"a": [x]}),
-         "series": lambda x: pd.Series([x])}
-
-
-def _reused(kind):
-    """the caller reads the stream in chunks into ONE preallocated buffer and hands each observation over as a view of it;
-    later chunks overwrite the buffer in place - the detector's decisions depend on the values, not on the caller's memory"""
-    def factory():
-        buf, k = np.zeros((8, 1)), [0]
-
-        def wrap(x):
-            i = k[0] % len(buf)
-            k[0] += 1
-            buf[i, 0] = x
-            return buf[i] if kind == 1 else (buf[i:i + 1] if kind == 2 else pd.Series(buf[i], copy=False))
-        return wrap
-    return factory
-
-
-STATEFUL = {"reused buffer, 1-d views": _reused(1), "reused buffer, 2-d views": _reused(2), "reused buffer, series": _reused(3)}
-
-
-def get_wrap(name):
-    return STATEFUL[name]() if name in STATEFUL else WRAPS[name]
+from ..containers import wrap_of, draw_wrap
 
 
 def ph_params(rng, small=False):
@@ -80,8 +56,8 @@ def run(ctx):
                     script.insert(rng.randrange(len(script)), ("reset",))
             for _ in range(rng.randint(0, 3)):
                 script.insert(rng.randrange(1, len(script)), ("bad", rng.choice([np.array([[1.0, 2.0]]), [[1.0], [2.0]], np.zeros((2, 1))])))
-            wname = rng.choice(sorted(WRAPS) + sorted(STATEFUL))
-            t = runner(p, script, get_wrap(wname))
+            wname = draw_wrap(rng)       # scalars, lists, arrays, frames, series, views of a reused buffer - one kind or a mix per stream
+            t = runner(p, script, wrap_of(wname))
             t["wrap"] = wname
             traces.append(t)
         ctx.validate(kind, traces, "%s long shifting streams" % kind, sabotage=D.sabotage, replay=replayer(traces),
@@ -100,6 +76,6 @@ def replay(ctx, bundle):
         else:
             script.append(tuple(s))
     runner = D.ph_run if r["driver"] == "PageHinkley" else D.cu_run
-    t = runner(r["params"], script, get_wrap(r.get("wrap", "scalar")))
+    t = runner(r["params"], script, wrap_of(r.get("wrap", "scalar")))
     ctx.validate("PageHinkley" if r["driver"] == "PageHinkley" else "Cusum", [t], "replay", replay=lambda i: r)
     return ctx.finish()
